@@ -148,61 +148,130 @@ func ruleC12e(c *Ctx) []*report.Result {
 	return []*report.Result{r}
 }
 
-// overrideSetters: printer methods returning a restorer that store the
-// given constant into the override field.
-func (c *Ctx) overrideSetters(val int64) []*ssa.Function {
-	var out []*ssa.Function
-	for _, fn := range c.P.ModuleFunctions() {
-		if recvNamed(fn) != tPP || !returnsRestorer(fn) {
-			continue
-		}
-		for _, b := range fn.Blocks {
-			for _, ins := range b.Instrs {
-				if st, ok := ins.(*ssa.Store); ok {
-					if fa, ok := st.Addr.(*ssa.FieldAddr); ok && fieldName(fa) == "override" {
-						if k, ok := intConst(st.Val); ok && k == val {
-							out = append(out, fn)
-						}
-					}
-				}
-			}
-		}
-	}
-	return out
+// setter: calling fn installs the value when param < 0, or when the
+// argument for parameter param is that value.
+type setter struct {
+	fn    *ssa.Function
+	param int
 }
 
-// modeSetters: printer methods returning a restorer that call SetMode(mode)
-// without touching the override.
-func (c *Ctx) modeSetters(mode int64) []*ssa.Function {
-	var out []*ssa.Function
+// installers finds the family of printer methods returning a restorer
+// through which a given value reaches the printer's override field
+// (field == "override") or Buffer.SetMode (field == "mode"): a method that
+// stores the constant, one that stores a parameter, and methods of the
+// family that call those with the constant or pass their own parameter on.
+// The second result lists the call sites outside the family at which the
+// value is installed: these are the sites that classify an operand.
+func (c *Ctx) installers(field string, val int64) (map[*ssa.Function]setter, []*ssa.Call) {
+	fam := map[*ssa.Function]setter{}
+	inFamily := func(fn *ssa.Function) bool { return recvNamed(fn) == tPP && returnsRestorer(fn) }
+	paramIdx := func(fn *ssa.Function, v ssa.Value) int {
+		if p, ok := v.(*ssa.Parameter); ok {
+			return paramIndex(fn, p)
+		}
+		return -1
+	}
+	note := func(fn *ssa.Function, v ssa.Value) bool {
+		if k, ok := intConst(v); ok {
+			if k == val {
+				if _, had := fam[fn]; !had {
+					fam[fn] = setter{fn, -1}
+					return true
+				}
+			}
+			return false
+		}
+		if i := paramIdx(fn, v); i >= 0 {
+			if _, had := fam[fn]; !had {
+				fam[fn] = setter{fn, i}
+				return true
+			}
+		}
+		return false
+	}
 	for _, fn := range c.P.ModuleFunctions() {
-		if recvNamed(fn) != tPP || !returnsRestorer(fn) {
+		if !inFamily(fn) {
 			continue
 		}
-		setsOverride, setsMode := false, false
 		for _, b := range fn.Blocks {
 			for _, ins := range b.Instrs {
-				if st, ok := ins.(*ssa.Store); ok {
-					if fa, ok := st.Addr.(*ssa.FieldAddr); ok && fieldName(fa) == "override" {
+				switch x := ins.(type) {
+				case *ssa.Store:
+					if fa, ok := x.Addr.(*ssa.FieldAddr); ok && field == "override" && fieldName(fa) == "override" {
 						if _, isLocal := fa.X.(*ssa.Alloc); !isLocal {
-							setsOverride = true
+							note(fn, x.Val)
 						}
 					}
+				case *ssa.Call:
+					if f := x.Common().StaticCallee(); f != nil && field == "mode" && f.Name() == "SetMode" && recvNamed(f) == tBuffer {
+						note(fn, x.Common().Args[1])
+					}
 				}
-				if call, ok := ins.(*ssa.Call); ok {
-					if f := call.Common().StaticCallee(); f != nil && f.Name() == "SetMode" && recvNamed(f) == tBuffer {
-						if k, ok := intConst(call.Common().Args[1]); ok && k == mode {
-							setsMode = true
+			}
+		}
+	}
+	installs := func(call *ssa.Call) (bool, ssa.Value) {
+		f := call.Common().StaticCallee()
+		if f == nil {
+			return false, nil
+		}
+		st, ok := fam[f]
+		if !ok {
+			return false, nil
+		}
+		if st.param < 0 {
+			return true, nil
+		}
+		if st.param < len(call.Common().Args) {
+			return true, call.Common().Args[st.param]
+		}
+		return false, nil
+	}
+	for changed := true; changed; {
+		changed = false
+		for _, fn := range c.P.ModuleFunctions() {
+			if !inFamily(fn) {
+				continue
+			}
+			for _, b := range fn.Blocks {
+				for _, ins := range b.Instrs {
+					if call, ok := ins.(*ssa.Call); ok {
+						if is, arg := installs(call); is {
+							if arg == nil {
+								if _, had := fam[fn]; !had {
+									fam[fn] = setter{fn, -1}
+									changed = true
+								}
+							} else if note(fn, arg) {
+								changed = true
+							}
 						}
 					}
 				}
 			}
 		}
-		if setsMode && !setsOverride {
-			out = append(out, fn)
+	}
+	var sites []*ssa.Call
+	for _, fn := range c.P.ModuleFunctions() {
+		if inFamily(fn) {
+			continue
+		}
+		for _, b := range fn.Blocks {
+			for _, ins := range b.Instrs {
+				if call, ok := ins.(*ssa.Call); ok {
+					if is, arg := installs(call); is {
+						if arg == nil {
+							sites = append(sites, call)
+						} else if k, ok := intConst(arg); !ok || k == val {
+							// a non-constant argument may be the value
+							sites = append(sites, call)
+						}
+					}
+				}
+			}
 		}
 	}
-	return out
+	return fam, sites
 }
 
 // classifyType names the redact-specific role of a type.
@@ -302,27 +371,25 @@ func ruleC02b(c *Ctx) []*report.Result {
 			svIface = o.Type().Underlying().(*types.Interface)
 		}
 	}
-	safeSetters := c.overrideSetters(1)
-	rawSetters := c.modeSetters(2)
-	if len(safeSetters) != 1 || len(rawSetters) != 1 || svIface == nil {
-		r.Undecide(fmt.Sprintf("expected one safe-override helper and one pre-redactable helper, found %d and %d", len(safeSetters), len(rawSetters)))
+	safeFam, safeSites := c.installers("override", 1)
+	rawFam, rawSites := c.installers("mode", 2)
+	if len(safeFam) == 0 || len(rawFam) == 0 || svIface == nil {
+		r.Undecide(fmt.Sprintf("expected a safe-override helper and a pre-redactable helper, found %d and %d", len(safeFam), len(rawFam)))
 		return []*report.Result{r}
 	}
-	for _, fn := range c.P.ModuleFunctions() {
-		for _, b := range fn.Blocks {
-			for _, ins := range b.Instrs {
-				call, ok := ins.(*ssa.Call)
-				if !ok {
-					continue
-				}
+	isSafeSite := map[*ssa.Call]bool{}
+	for _, s := range safeSites {
+		isSafeSite[s] = true
+	}
+	for _, call := range append(append([]*ssa.Call{}, safeSites...), rawSites...) {
+		{
+			{
+				fn, b := call.Parent(), call.Block()
 				f := call.Common().StaticCallee()
-				if f != safeSetters[0] && f != rawSetters[0] {
-					continue
-				}
 				pos := c.P.Pos(call.Pos())
 				kinds := c.guardKinds(fn, b)
 				construct := shortFn(fn.String()) + " / " + f.Name()
-				if f == safeSetters[0] {
+				if isSafeSite[call] {
 					ok := false
 					why := ""
 					for _, k := range kinds {
@@ -519,6 +586,31 @@ func ruleC01c(c *Ctx) []*report.Result {
 		}
 		return false
 	}
+	// an accessor hands marker bytes to its caller and does nothing else
+	// with them: the material flows, through conversions only, to a return
+	var onlyReturned func(ins ssa.Instruction, depth int) bool
+	onlyReturned = func(ins ssa.Instruction, depth int) bool {
+		if _, ok := ins.(*ssa.Return); ok {
+			return true
+		}
+		if depth > 4 {
+			return false
+		}
+		switch v := ins.(type) {
+		case *ssa.Convert, *ssa.ChangeType, *ssa.Phi:
+			refs := v.(ssa.Value).Referrers()
+			if refs == nil || len(*refs) == 0 {
+				return false
+			}
+			for _, u := range *refs {
+				if !onlyReturned(u, depth+1) {
+					return false
+				}
+			}
+			return true
+		}
+		return false
+	}
 	for _, fn := range c.P.ModuleFunctions() {
 		refs := []string{}
 		for _, b := range fn.Blocks {
@@ -528,6 +620,9 @@ func ruleC01c(c *Ctx) []*report.Result {
 						continue
 					}
 					if isMarkerConst(*op) {
+						if fn.Object() != nil && fn.Object().Exported() && fn.Signature.Recv() == nil && onlyReturned(ins, 0) {
+							continue
+						}
 						refs = append(refs, "constant "+(*op).String())
 					}
 					if g, ok := (*op).(*ssa.Global); ok && pkgPathOfGlobal(g) == pkgMarkers {
